@@ -22,6 +22,22 @@ var Properties = map[string]func(*Ctx){
 	"C07": C07,
 	"C06": C06,
 	"C05": C05,
+	"C02": C02,
+	"C08": C08,
+}
+
+func C02(c *Ctx) {
+	R8Exhaustive(c)
+	R8Sibling(c)
+	R8ByteOrder(c)
+	R8Encrypt(c)
+	R8RequestID(c)
+	R8Terminators(c)
+}
+
+func C08(c *Ctx) {
+	R8IDWidth(c)
+	R8Pivot(c)
 }
 
 func C05(c *Ctx) {
